@@ -1045,7 +1045,7 @@ fn start_group(cfg: GroupCfg, n: usize, server_rt: &tokio::runtime::Runtime) -> 
             let (tx, rx) = unbounded_channel::<ConnTask>();
             let with_cancel = cfg.entry == Entry::ConnCancel;
             let hs = cfg.hs();
-            let (stat, limits) = (cfg.static_accept, cfg.limits());
+            let (stat, lim, limits) = (cfg.static_accept, cfg.lim, cfg.limits());
             let task = h.spawn(async move {
                 let l = tokio::net::TcpListener::from_std(l).unwrap();
                 loop {
@@ -1055,7 +1055,7 @@ fn start_group(cfg: GroupCfg, n: usize, server_rt: &tokio::runtime::Runtime) -> 
                     let t2 = token.clone();
                     let handle = tokio::spawn(async move {
                         if hs {
-                            let acc = if stat { WebSocketServer::accept_with_handshake_and_limits(stream, "/repe", limits).await } else { shared.accept_with_handshake(stream, "/repe").await };
+                            let acc = if stat && lim { WebSocketServer::accept_with_handshake_and_limits(stream, "/repe", limits).await } else if stat { WebSocketServer::accept_with_handshake(stream, "/repe").await } else { shared.accept_with_handshake(stream, "/repe").await };
                             if let Ok((ws, ctx)) = acc {
                                 if with_cancel {
                                     let _ = shared.serve_connection_with_cancel_and_handshake(ws, ctx, &t2).await;
@@ -1063,7 +1063,7 @@ fn start_group(cfg: GroupCfg, n: usize, server_rt: &tokio::runtime::Runtime) -> 
                                     let _ = shared.serve_connection_with_handshake(ws, ctx).await;
                                 }
                             }
-                        } else if let Ok(ws) = if stat { WebSocketServer::accept_with_limits(stream, "/repe", limits).await } else { shared.accept(stream, "/repe").await } {
+                        } else if let Ok(ws) = if stat && lim { WebSocketServer::accept_with_limits(stream, "/repe", limits).await } else if stat { WebSocketServer::accept(stream, "/repe").await } else { shared.accept(stream, "/repe").await } {
                             if with_cancel {
                                 let _ = shared.serve_connection_with_cancel(ws, &t2).await;
                             } else {
@@ -1138,6 +1138,14 @@ fn oracles(cfg: &GroupCfg, scen: &Scen, trace: &[String], res: &ConnResult, inl:
     for (u, n) in &ccount {
         if *n > 1 {
             out.push(("lifecycle.connect.duplicate".into(), format!("connect callback {u} invoked {n} times; trace {trace:?}")));
+        }
+    }
+    // every connect callback that fires for this connection (plain ones, then the handshake-aware ones when a
+    // handshake was handed over) runs — up to and including the one that panics
+    let last = if scen.cause == "cpanic" { scen.at.map(|a| a + 1).unwrap_or(0) } else { cfg.nconn + cfg.nctx };
+    for u in 0..last {
+        if ccount.get(&u).copied().unwrap_or(0) == 0 {
+            out.push(("lifecycle.connect.missing".into(), format!("connect callback {u} was never invoked ({} plain + {} handshake-aware expected); trace {trace:?}", cfg.nconn, cfg.nctx)));
         }
     }
     for u in 0..cfg.ndisc {
@@ -1626,37 +1634,41 @@ async fn rx_wait(rx: &mut UnboundedReceiver<RxEvt>, closed: &mut BTreeMap<usize,
 async fn run_rx(plan: RxPlan, server_rt: &tokio::runtime::Runtime, out: &Mutex<Out>) {
     let (ev_tx, mut ev_rx) = unbounded_channel();
     let rx = Arc::new(Rx { reg: PeerRegistry::new(), establishing: Mutex::new(None), conn_of: Mutex::new(HashMap::new()), id_of: Mutex::new(HashMap::new()), ev: ev_tx, unknown: AtomicU64::new(0) });
-    let server = rx_server(&rx);
+    // TWO server instances feed the one registry (documented: "two WebSocketServers sharing one registry mint
+    // non-colliding ids"); connection c is served by server c % 2
     let h = server_rt.handle().clone();
-    let mut addr = None;
-    let mut shared: Option<SharedWebSocketServer> = None;
-    let mut server_task = None;
-    if plan.entry != Entry::Adopt {
-        let l = std::net::TcpListener::bind("127.0.0.1:0").expect("bind");
-        l.set_nonblocking(true).unwrap();
-        addr = Some(l.local_addr().unwrap());
-        if plan.entry == Entry::Listener {
-            server_task = Some(h.spawn(async move {
-                let l = tokio::net::TcpListener::from_std(l).unwrap();
-                let _ = server.serve_listener(l, "/repe").await;
-            }));
+    let mut addrs: Vec<std::net::SocketAddr> = Vec::new();
+    let mut shareds: Vec<SharedWebSocketServer> = Vec::new();
+    let mut server_tasks = Vec::new();
+    for _ in 0..2 {
+        let server = rx_server(&rx);
+        if plan.entry != Entry::Adopt {
+            let l = std::net::TcpListener::bind("127.0.0.1:0").expect("bind");
+            l.set_nonblocking(true).unwrap();
+            addrs.push(l.local_addr().unwrap());
+            if plan.entry == Entry::Listener {
+                server_tasks.push(h.spawn(async move {
+                    let l = tokio::net::TcpListener::from_std(l).unwrap();
+                    let _ = server.serve_listener(l, "/repe").await;
+                }));
+            } else {
+                let sh = server.into_shared();
+                server_tasks.push(h.spawn(async move {
+                    let l = tokio::net::TcpListener::from_std(l).unwrap();
+                    loop {
+                        let Ok((stream, _)) = l.accept().await else { break };
+                        let sh = sh.clone();
+                        tokio::spawn(async move {
+                            if let Ok(ws) = sh.accept(stream, "/repe").await {
+                                let _ = sh.serve_connection(ws).await;
+                            }
+                        });
+                    }
+                }));
+            }
         } else {
-            let sh = server.into_shared();
-            server_task = Some(h.spawn(async move {
-                let l = tokio::net::TcpListener::from_std(l).unwrap();
-                loop {
-                    let Ok((stream, _)) = l.accept().await else { break };
-                    let sh = sh.clone();
-                    tokio::spawn(async move {
-                        if let Ok(ws) = sh.accept(stream, "/repe").await {
-                            let _ = sh.serve_connection(ws).await;
-                        }
-                    });
-                }
-            }));
+            shareds.push(server.into_shared());
         }
-    } else {
-        shared = Some(server.into_shared());
     }
 
     let reset = format!("rx {}.r reset {}", plan.g, plan.entry.name());
@@ -1684,7 +1696,7 @@ async fn run_rx(plan: RxPlan, server_rt: &tokio::runtime::Runtime, out: &Mutex<O
             match step {
                 RxStep::Open { c, keys } => {
                     *rx.establishing.lock().unwrap() = Some((*c, keys.clone()));
-                    let ws: Ws = if let Some(sh) = &shared {
+                    let ws: Ws = if let Some(sh) = shareds.get(*c % 2) {
                         let (cio, sio) = tokio::io::duplex(64 * 1024);
                         let sh = sh.clone();
                         h.spawn(async move {
@@ -1694,9 +1706,10 @@ async fn run_rx(plan: RxPlan, server_rt: &tokio::runtime::Runtime, out: &Mutex<O
                         let b: BoxIo = Box::new(cio);
                         WebSocketStream::from_raw_socket(b, Role::Client, None).await
                     } else {
-                        let s = tokio::time::timeout(WD, tokio::net::TcpStream::connect(addr.unwrap())).await.map_err(|_| "tcp-connect-watchdog")?.map_err(|e| e.to_string())?;
+                        let addr = addrs[*c % 2];
+                        let s = tokio::time::timeout(WD, tokio::net::TcpStream::connect(addr)).await.map_err(|_| "tcp-connect-watchdog")?.map_err(|e| e.to_string())?;
                         let b: BoxIo = Box::new(s);
-                        let (w, _) = tokio::time::timeout(WD, tokio_tungstenite::client_async(format!("ws://{}/repe", addr.unwrap()), b)).await.map_err(|_| "ws-handshake-watchdog")?.map_err(|e| e.to_string())?;
+                        let (w, _) = tokio::time::timeout(WD, tokio_tungstenite::client_async(format!("ws://{}/repe", addr), b)).await.map_err(|_| "ws-handshake-watchdog")?.map_err(|e| e.to_string())?;
                         w
                     };
                     clients.insert(*c, ws);
@@ -1816,7 +1829,7 @@ async fn run_rx(plan: RxPlan, server_rt: &tokio::runtime::Runtime, out: &Mutex<O
     }
     // teardown
     drop(clients);
-    if let Some(t) = server_task {
+    for t in server_tasks {
         t.abort();
     }
     let mut o = out.lock().unwrap();
